@@ -46,6 +46,9 @@ FAILING = [
     ("shape-assign-needs-copy-view", "NCV.shape = (6,)"),
     ("clip-bad-upper-bound", "mg.clip({s}, c1, BAD7)"),
     ("clip-bad-upper-bound-out", "mg.clip({s}, c1, BAD7, out={s})"),
+    # ... the second step fails for a reason other than a shape (which could be validated up front): dtype of the upper bound
+    ("clip-upper-bound-dtype-out", "mg.clip(IT, 2, 2.5, out=IT)"),
+    ("clip-upper-bound-complex-out", "mg.clip(FT, 1.0, 1j, out=FT)"),
 ]
 # in-place statements that must fail when the memory they would write to is natively read-only
 RO_FAILING = [
@@ -138,7 +141,7 @@ def _after_snapshot(T, mg, names):
         g = t.grad
         snap[n] = dict(uids=tuple(getattr(x, "uid", x) for x in terms_of(t.data)) if t.data.dtype == object else tuple(t.data.reshape(-1).tolist()),
                        shape=t.shape, constant=t.constant, base=b[0] if b else (None if t.base is None else "<unnamed>"),
-                       has_creator=t.creator is not None, n_ops=len(t._ops),
+                       has_creator=t.creator is not None, n_ops=sum(1 for r_ in t._ops if r_() is not None),
                        grad=None if g is None else (tuple(getattr(x, "uid", x) for x in terms_of(g)) if g.dtype == object else tuple(np.asarray(g).reshape(-1).tolist())),
                        grad_shares=tuple(bool(g is not None and T[m].grad is not None and np.shares_memory(g, T[m].grad)) for m in names),
                        shares=tuple(bool(np.shares_memory(t.data, T[m].data)) for m in names))
@@ -215,7 +218,7 @@ def snap(T):
     s = {}
     for n in live:
         t = T[n]; b = [m for m in live if T[m] is t.base]
-        s[n] = (t.data.tolist(), t.constant, b[0] if b else (None if t.base is None else "?"), t.creator is not None, len(t._ops),
+        s[n] = (t.data.tolist(), t.constant, b[0] if b else (None if t.base is None else "?"), t.creator is not None, sum(1 for r_ in t._ops if r_() is not None),
                 None if t.grad is None else t.grad.tolist(), tuple(bool(np.shares_memory(t.data, T[m].data)) for m in live))
     return s
 def run(fail):
@@ -264,7 +267,7 @@ def snapshot(env, mg):
         base = [m for m in names if T[m] is t.base]
         snap[n] = dict(uids=tuple(x.uid for x in terms_of(t.data)), shape=t.shape, constant=t.constant,
                        base=base[0] if base else (None if t.base is None else "<unnamed>"),
-                       writeable=bool(t.data.flags.writeable), has_creator=t.creator is not None, n_ops=len(t._ops),
+                       writeable=bool(t.data.flags.writeable), has_creator=t.creator is not None, n_ops=sum(1 for r_ in t._ops if r_() is not None),
                        n_view_children=len(list(t._view_children)),
                        shares=tuple(bool(np.shares_memory(t.data, T[m].data)) for m in names))
     snap["__locks__"] = len(lm._array_counter)
@@ -288,6 +291,7 @@ def run_item(mg, base, prog, pos, fname, res, ro=False):
         T["RO"] = mg.Tensor(ro_arr, copy=False, constant=False)
         T["IT"] = mg.Tensor(np.array([1, 2, 3]))
         T["IT8"] = mg.Tensor(np.array([1, 2, 3], dtype=np.uint8))
+        T["FT"] = mg.Tensor(np.array([0.5, 1.5, 2.5]))  # ordinary floats: comparisons on it do not fork
         T["NC"] = mg.Tensor(np.arange(6.0).reshape(2, 3).T)  # owner of non-C-ordered memory, shape (3, 2)
         T["NCB"] = mg.Tensor(np.arange(6.0).reshape(2, 3))
         T["NCV"] = T["NCB"].T  # non-contiguous view
@@ -314,6 +318,8 @@ def run_item(mg, base, prog, pos, fname, res, ro=False):
                  if n in T and isinstance(T[n], mg.Tensor)}
         final = snapshot(T, mg)
         ro_ok = (not T["RO"].data.flags.writeable) and bool(T["IT"].data.flags.writeable) and bool(T["IT8"].data.flags.writeable)
+        ro_ok = ro_ok and T["IT"].data.tolist() == [1, 2, 3] and T["IT"].creator is None and T["IT8"].data.tolist() == [1, 2, 3]
+        ro_ok = ro_ok and T["FT"].data.tolist() == [0.5, 1.5, 2.5] and T["FT"].creator is None
         ro_ok = ro_ok and T["NC"].shape == (3, 2) and T["NCV"].shape == (3, 2) and T["NCV"].base is T["NCB"] and bool(np.shares_memory(T["NCV"].data, T["NCB"].data))
         return dict(raised=raised, snap=snap_after, Lterms=Lterms, grads=grads, final=final, ro_ok=ro_ok)
 
@@ -342,7 +348,7 @@ def run_item(mg, base, prog, pos, fname, res, ro=False):
                 fields = [f for f in a[key][d0] if a[key][d0][f] != b[key][d0][f]]
                 return "state", "%s the failure tensor %s differs in %s" % ("right after" if key == "snap" else "at the end,", d0, fields)
         if not a["ro_ok"]:
-            return "state", "natively read-only array became writeable, or the integer operand of the failed call stayed locked"
+            return "state", "natively read-only array became writeable, or the integer operand of the failed call stayed locked / changed its values"
         prob = query.Problem(list(p.pc) + list(p.dom))
         pairs = list(zip(a["Lterms"], b["Lterms"]))
         for n in a["grads"]:
@@ -384,7 +390,7 @@ def snap(T):
     for n in live:
         t = T[n]; b = [m for m in live if T[m] is t.base]
         s[n] = (t.data.tolist(), t.constant, b[0] if b else (None if t.base is None else "?"), bool(t.data.flags.writeable), t.creator is not None,
-                len(t._ops), tuple(bool(np.shares_memory(t.data, T[m].data)) for m in live))
+                sum(1 for r_ in t._ops if r_() is not None), tuple(bool(np.shares_memory(t.data, T[m].data)) for m in live))
     s["locks"] = len(lm._array_counter)
     return s
 def run(fail):
@@ -396,7 +402,7 @@ def run(fail):
          "BAD7": np.ones(7), "BAD7T": np.ones(7), "BADMASK": np.ones(7, dtype=bool)}
     ro = np.array([1.0, 2.0]); ro.flags.writeable = False
     T["RO"] = mg.Tensor(ro, copy=False)
-    T["IT"] = mg.Tensor(np.array([1, 2, 3])); T["IT8"] = mg.Tensor(np.array([1, 2, 3], dtype=np.uint8))
+    T["IT"] = mg.Tensor(np.array([1, 2, 3])); T["IT8"] = mg.Tensor(np.array([1, 2, 3], dtype=np.uint8)); T["FT"] = mg.Tensor(np.array([0.5, 1.5, 2.5]))
     T["NC"] = mg.Tensor(np.arange(6.0).reshape(2, 3).T); T["NCB"] = mg.Tensor(np.arange(6.0).reshape(2, 3)); T["NCV"] = T["NCB"].T
     raised = []; s1 = None
     for i, ln in enumerate(PROG):
@@ -411,7 +417,7 @@ def run(fail):
         exec(ln, T)
     T["L"].backward()
     g = {n: (None if T[n].grad is None else T[n].grad.tolist()) for n in TN if n in T and isinstance(T[n], mg.Tensor)}
-    return raised, s1, snap(T), float(np.sum(T["L"].data)), g, T["RO"].data.flags.writeable or not T["IT"].data.flags.writeable or not T["IT8"].data.flags.writeable or T["NC"].shape != (3, 2) or T["NCV"].shape != (3, 2) or not np.shares_memory(T["NCV"].data, T["NCB"].data) or T["NCV"].base is not T["NCB"]
+    return raised, s1, snap(T), float(np.sum(T["L"].data)), g, T["RO"].data.flags.writeable or T["FT"].data.tolist() != [0.5, 1.5, 2.5] or T["FT"].creator is not None or T["IT"].data.tolist() != [1, 2, 3] or T["IT"].creator is not None or not T["IT"].data.flags.writeable or not T["IT8"].data.flags.writeable or T["NC"].shape != (3, 2) or T["NCV"].shape != (3, 2) or not np.shares_memory(T["NCV"].data, T["NCB"].data) or T["NCV"].base is not T["NCB"]
 ra, a1, a2, La, ga, roa = run(True)
 for k_ in list(lm._array_counter): pass
 lm._array_counter.clear(); lm._array_tracker.clear(); lm._views_waiting_for_unlock.clear()
